@@ -544,6 +544,67 @@ func c09r3(rc *core.RC) {
 	if !found {
 		rc.Unknown("decoder.(*Stream).read/reader-error", fn.Pos(), "no call of io.Reader.Read found")
 	}
+	// the kept error is what Decoder.Decode returns: every success return of DecodeWithOption is
+	// dominated by a test of the stream's reader error whose true branch returns it
+	fd := rc.P.Func("json", "Decoder.DecodeWithOption")
+	key := "json.(*Decoder).DecodeWithOption/returns-reader-error"
+	if fd == nil {
+		rc.Unknown(key, token.NoPos, "not found")
+		return
+	}
+	rc.Touch("json.(*Decoder).DecodeWithOption")
+	info := rc.P.Info(fd)
+	cf := core.BuildCFG(fd.Body, info)
+	var guards []*cfg.Block
+	ast.Inspect(fd.Body, func(m ast.Node) bool {
+		ifs, ok := m.(*ast.IfStmt)
+		if !ok {
+			return true
+		}
+		// if rerr := s.ReadErr(); rerr != nil { return rerr }
+		calls := false
+		if ifs.Init != nil {
+			ast.Inspect(ifs.Init, func(k ast.Node) bool {
+				if c, ok := k.(*ast.CallExpr); ok && strings.HasSuffix(core.CalleeName(info, c), "Stream.ReadErr") {
+					calls = true
+				}
+				return true
+			})
+		}
+		if !calls {
+			return true
+		}
+		retsIt := false
+		for _, st := range ifs.Body.List {
+			if r, ok := st.(*ast.ReturnStmt); ok && len(r.Results) == 1 && !core.IsNilIdent(info, r.Results[0]) {
+				retsIt = true
+			}
+		}
+		if retsIt {
+			if b, _ := cf.BlockOf(ifs.Cond); b != nil {
+				guards = append(guards, b)
+			}
+		}
+		return true
+	})
+	okAll, nret := true, 0
+	for _, r := range cf.Returns() {
+		if len(r.Results) != 1 || !core.IsNilIdent(info, r.Results[0]) {
+			continue
+		}
+		nret++
+		rb, _ := cf.BlockOf(r)
+		dom := false
+		for _, g := range guards {
+			if rb != nil && cf.Dominates(g, rb) {
+				dom = true
+			}
+		}
+		if !dom {
+			okAll = false
+		}
+	}
+	rc.Check(okAll && nret > 0 && len(guards) > 0, key, fd.Pos(), "every `return nil` of Decoder.DecodeWithOption is dominated by `if rerr := s.ReadErr(); rerr != nil { return rerr }` (%d guard(s), %d success return(s)): a value cut short by a failing reader is not reported as decoded", len(guards), nret)
 }
 
 // ---- C09.R4 mode siblings agree on dispatch ----
